@@ -20,6 +20,14 @@ func MapKeys[K comparable, V any](m map[K]V) []K {
 	}
 	sortKeys(keys)
 	s := cur.Load()
+	if s == nil && standaloneMap != nil {
+		p := standaloneMap.Perm(len(keys))
+		out := make([]K, len(keys))
+		for i, j := range p {
+			out[i] = keys[j]
+		}
+		return out
+	}
 	if s != nil && s.cfg.ShuffleMaps {
 		p := s.permMap(len(keys))
 		out := make([]K, len(keys))
@@ -53,3 +61,9 @@ func sortKeys[K comparable](keys []K) {
 // KeyZero / ValZero give rewritten map ranges correctly typed per-loop variables.
 func KeyZero[K comparable, V any](m map[K]V) (k K) { return }
 func ValZero[K comparable, V any](m map[K]V) (v V) { return }
+
+var standaloneMap *Rng
+
+// StandaloneMapOrder makes MapKeys permute map orders with the given PRNG when no simulation run is
+// active (worlds without concurrency that still depend on map iteration order). nil switches it off.
+func StandaloneMapOrder(r *Rng) { standaloneMap = r }
